@@ -64,11 +64,11 @@ def compare(ctx, name, psi, ref, case, tol=1e-8, norm_free=False):
     scale = max(1.0, float(np.linalg.norm(ref)))
     if norm_free:
         ov, _ = dense.align_phase(vec.reshape(-1), ref.reshape(-1))
-        if abs(ov - 1) > tol:
+        if not (abs(ov - 1) <= tol):
             ctx.violation(name + ':state-differs', 'normalised overlap %r' % ov, case)
             return False
         return True
-    if np.linalg.norm(vec - ref) > tol * scale:
+    if not (np.linalg.norm(vec - ref) <= tol * scale):
         ov, _ = dense.align_phase(vec.reshape(-1), ref.reshape(-1))
         kind = 'norm-or-phase' if abs(ov - 1) < 1e-8 else 'direction'
         ctx.violation('%s:state-differs:%s' % (name, kind), '|psi - ref| = %g, normalised overlap %r, |psi| %r |ref| %r, psi.norm %r' %
@@ -233,7 +233,7 @@ def case_finite(ctx, i):
                     np.random.set_state(st)
                 # a random unitary close to 1 changes the state: only invariants are checked (norm, sector)
                 vec2 = dense.finite_vector(psi)
-                if abs(np.linalg.norm(vec2) - np.linalg.norm(ref)) > 1e-8 * max(1, np.linalg.norm(ref)):
+                if not (abs(np.linalg.norm(vec2) - np.linalg.norm(ref)) <= 1e-8 * max(1, np.linalg.norm(ref))):
                     ctx.violation('perturb:norm-changed', '|psi| %r -> %r' % (np.linalg.norm(ref), np.linalg.norm(vec2)), case)
                     return
                 ref = vec2
@@ -353,12 +353,12 @@ def case_infinite(ctx, i):
             psi.test_sanity()
             ctx.count('infinite.inversion')
             nt = psi.norm_test()
-            if np.max(np.abs(nt)) > 1e-7:
+            if not (np.max(np.abs(nt)) <= 1e-7):
                 ctx.violation('spatial_inversion(infinite):not-canonical', 'norm_test %r (forms %r)' % (np.asarray(nt).tolist(), forms), case)
                 return
             for j in range(L):
                 r = window_rho(psi, j, 1)
-                if r.shape != base1[L - 1 - j].shape or np.linalg.norm(r - base1[L - 1 - j]) > 1e-7:
+                if r.shape != base1[L - 1 - j].shape or not (np.linalg.norm(r - base1[L - 1 - j]) <= 1e-7):
                     ctx.violation('spatial_inversion(infinite):observables-not-mirrored', 'site %d: |rho_new(j) - rho_old(L-1-j)| = %g' %
                                   (j, np.linalg.norm(r - base1[L - 1 - j]) if r.shape == base1[L - 1 - j].shape else -1), case)
                     return
@@ -369,7 +369,7 @@ def case_infinite(ctx, i):
             psi.test_sanity()
             ctx.count('infinite.roll')
             nt = psi.norm_test()
-            if np.max(np.abs(nt)) > 1e-7:
+            if not (np.max(np.abs(nt)) <= 1e-7):
                 ctx.violation('roll_mps_unit_cell:not-canonical:%s' % ('uniform-form' if len(set(forms)) == 1 else 'nonuniform-form'),
                               'norm_test %r after shift %d with forms %r' % (np.asarray(nt).tolist(), shift, forms), case)
                 return
@@ -377,7 +377,7 @@ def case_infinite(ctx, i):
             for j in range(L):
                 old = (j - shift) % L
                 r = window_rho(psi, j, n)
-                if np.linalg.norm(r - base[old]) > 1e-7:
+                if not (np.linalg.norm(r - base[old]) <= 1e-7):
                     ctx.violation('roll_mps_unit_cell:observables-changed:%s' % ('uniform-form' if len(set(forms)) == 1 else 'nonuniform-form'),
                                   'window at new site %d (old %d): |rho - rho_old| = %g (shift %d, forms %r)' %
                                   (j, old, np.linalg.norm(r - base[old]), shift, forms), case)
@@ -394,7 +394,7 @@ def case_infinite(ctx, i):
                 return
             for j in range(psi.L):
                 r = window_rho(psi, j, n)
-                if np.linalg.norm(r - base[j % L]) > 1e-7:
+                if not (np.linalg.norm(r - base[j % L]) <= 1e-7):
                     ctx.violation('enlarge_mps_unit_cell:observables-changed', 'site %d' % j, case)
                     return
     except Exception as e:
